@@ -259,8 +259,8 @@ def run(ctx):
             ph = np.array([((pn * k) % qn) / qn for k in range(N)], dtype=float)
             yy = data[:, e_].astype(np.complex128) * np.exp(2j * np.pi * ph)
             Ys = np.fft.fftshift(np.fft.fft(yy))
-            src = np.arange(N) - float(a)
-            Ys[(src < 0) | (src > N - 1)] = 0
+            jj = np.arange(N)
+            Ys[(jj < math.ceil(a)) if a >= 0 else (jj >= N + math.floor(a))] = 0      # exactly: source bin j - a outside [0, N-1]
             ref = np.fft.ifft(np.fft.ifftshift(Ys))
             worst = max(worst, float(np.max(np.abs(yd[:, e_].astype(np.complex128) - ref))))
         tolv = (6e-6 if single else 1e-10) * float(np.max(np.abs(data))) * (1 if single else N)
